@@ -58,6 +58,10 @@ def assigned_names(stmts):
     out = set()
     for s in stmts:
         for n in ast.walk(s):
+            if isinstance(n, (ast.Assign, ast.AugAssign, ast.AnnAssign)):
+                for t_ in (n.targets if isinstance(n, ast.Assign) else [n.target]):
+                    if isinstance(t_, ast.Attribute) and isinstance(t_.value, ast.Name) and t_.value.id == 'self':
+                        out.add('self.' + t_.attr)
             tg = []
             if isinstance(n, ast.Assign):
                 tg = list(n.targets)
@@ -85,6 +89,7 @@ def assigned_names(stmts):
 class StrExec:
     def __init__(self, env, tracked, hole_for_subscript=None, call_hook=None, frozen=(), functions=None, is_sub=False):
         self.functions = functions or {}    # module-level helpers that calls are followed into
+        self.methods = {}                   # methods of the class under evaluation: `self.m(...)` is followed into them
         self.is_sub = is_sub
         self.frozen = set(frozen)
         self.env = dict(env)
@@ -108,6 +113,13 @@ class StrExec:
             if n.id not in self.env and n.id in self.local_names:
                 raise EvalRaise('UnboundLocalError')
             return self.env.get(n.id, UNKNOWN)
+        if isinstance(n, ast.Attribute) and isinstance(n.value, ast.Name) and n.value.id == 'self':
+            return self.env.get('self.' + n.attr, UNKNOWN)
+        if isinstance(n, ast.IfExp):
+            t = self.ev(n.test)
+            if t is UNKNOWN:
+                return UNKNOWN
+            return self.ev(n.body if t else n.orelse)
         if isinstance(n, ast.JoinedStr):
             parts = []
             for v in n.values:
@@ -198,6 +210,49 @@ class StrExec:
             if name in ('list', 'tuple') and len(n.args) == 1:
                 v = self.ev(n.args[0])
                 return list(v) if isinstance(v, (list, dict)) else UNKNOWN
+            if isinstance(n.func, ast.Attribute) and isinstance(n.func.value, ast.Name) and n.func.value.id == 'self' and n.func.attr in self.methods \
+                    and not n.keywords:
+                return self.call_function(self.methods[n.func.attr], [self.ev(a) for a in n.args], bound=True)
+            if name == 'isinstance' and len(n.args) == 2 and not n.keywords:
+                v = self.ev(n.args[0])
+                tnames = [src(t_) for t_ in (n.args[1].elts if isinstance(n.args[1], ast.Tuple) else [n.args[1]])]
+                kinds = {'dict': dict, 'list': list, 'tuple': list, 'str': str, 'int': int, 'float': float, 'bool': bool}
+                if v is UNKNOWN or isinstance(v, Hole) or any(t_ not in kinds for t_ in tnames):
+                    return UNKNOWN
+                return any(isinstance(v, kinds[t_]) and not (kinds[t_] is int and isinstance(v, bool) and t_ == 'int' and False) for t_ in tnames)
+            if name == 'zip' and len(n.args) == 2 and not n.keywords:
+                a_, b_ = self.ev(n.args[0]), self.ev(n.args[1])
+                if isinstance(a_, dict):
+                    a_ = list(a_)
+                if isinstance(b_, dict):
+                    b_ = list(b_)
+                if isinstance(a_, list) and isinstance(b_, list):
+                    return [[x_, y_] for x_, y_ in zip(a_, b_)]
+                return UNKNOWN
+            if name == 'enumerate' and len(n.args) == 1 and not n.keywords:
+                a_ = self.ev(n.args[0])
+                if isinstance(a_, dict):
+                    a_ = list(a_)
+                return [[i_, x_] for i_, x_ in enumerate(a_)] if isinstance(a_, list) else UNKNOWN
+            if name == 'dict' and len(n.args) <= 1:
+                d_ = {}
+                if n.args:
+                    a_ = self.ev(n.args[0])
+                    if isinstance(a_, dict):
+                        d_ = dict(a_)
+                    elif isinstance(a_, list) and all(isinstance(x_, list) and len(x_) == 2 and not isinstance(x_[0], (list, dict)) and x_[0] is not UNKNOWN for x_ in a_):
+                        d_ = {x_[0]: x_[1] for x_ in a_}
+                    else:
+                        return UNKNOWN
+                for kw in n.keywords:
+                    if kw.arg is None:
+                        extra = self.ev(kw.value)
+                        if not isinstance(extra, dict):
+                            return UNKNOWN
+                        d_.update(extra)
+                    else:
+                        d_[kw.arg] = self.ev(kw.value)
+                return d_
             if name in ('any', 'all') and len(n.args) == 1 and not n.keywords:
                 v = self.ev(n.args[0])
                 if not isinstance(v, list):
@@ -280,14 +335,27 @@ class StrExec:
             except Exception:
                 return UNKNOWN
         if isinstance(n, ast.BoolOp):
-            vals = [self.ev(v) for v in n.values]
-            if isinstance(n.op, ast.And):
-                if any(v is False for v in vals):
-                    return False
-                return UNKNOWN if any(v is UNKNOWN for v in vals) else all(bool(v) for v in vals)
-            if any(v is True for v in vals):
-                return True
-            return UNKNOWN if any(v is UNKNOWN for v in vals) else any(bool(v) for v in vals)
+            # Python semantics: operands left to right, only as far as needed; the value is the deciding operand itself
+            is_and = isinstance(n.op, ast.And)
+            unknown = False
+            last = UNKNOWN
+            for v_ in n.values:
+                try:
+                    v = self.ev(v_)
+                except EvalRaise:
+                    if unknown:
+                        return UNKNOWN      # whether this operand is reached at all is not known
+                    raise
+                last = v
+                if v is UNKNOWN or isinstance(v, Hole):
+                    unknown = True          # (a model-supplied value: its truth is not known)
+                    continue
+                truth = bool(v)
+                if is_and and not truth:
+                    return UNKNOWN if unknown else v
+                if not is_and and truth:
+                    return UNKNOWN if unknown else v
+            return UNKNOWN if unknown else last
         if isinstance(n, ast.UnaryOp) and isinstance(n.op, ast.Not):
             v = self.ev(n.operand)
             return UNKNOWN if v is UNKNOWN else (not v)
@@ -315,9 +383,45 @@ class StrExec:
                     out.append(self.ev(n.elt))
             self.env = saved
             return out
+        if isinstance(n, ast.DictComp) and len(n.generators) == 1:
+            g = n.generators[0]
+            it = self.ev(g.iter)
+            if isinstance(it, dict):
+                it = list(it)
+            if not isinstance(it, list):
+                return UNKNOWN
+            out = {}
+            saved = dict(self.env)
+            for v in it:
+                self.bind(g.target, v)
+                conds = [self.ev(c) for c in g.ifs]
+                if any(c is UNKNOWN for c in conds):
+                    self.env = saved
+                    return UNKNOWN
+                if all(bool(c) for c in conds):
+                    k_ = self.ev(n.key)
+                    if k_ is UNKNOWN or isinstance(k_, (list, dict)):
+                        self.env = saved
+                        return UNKNOWN
+                    out[k_] = self.ev(n.value)
+            self.env = saved
+            return out
         if isinstance(n, ast.Dict):
             if any(k is None for k in n.keys):
-                return UNKNOWN
+                # {**a, **b, key: value}
+                out = {}
+                for k_, v_ in zip(n.keys, n.values):
+                    if k_ is None:
+                        d_ = self.ev(v_)
+                        if not isinstance(d_, dict):
+                            return UNKNOWN
+                        out.update(d_)
+                    else:
+                        kk = self.ev(k_)
+                        if kk is UNKNOWN or isinstance(kk, (list, dict)):
+                            return UNKNOWN
+                        out[kk] = self.ev(v_)
+                return out
             ks = [self.ev(k) for k in n.keys]
             if any(k is UNKNOWN or isinstance(k, (list, dict)) for k in ks):
                 return UNKNOWN
@@ -363,12 +467,12 @@ class StrExec:
     def leaves(stmts):
         return any(isinstance(n, (ast.Return, ast.Raise, ast.Continue, ast.Break)) for st in stmts for n in ast.walk(st))
 
-    def call_function(self, f, args):
-        """follow a call into a module-level helper: its body is evaluated on the argument values"""
-        params = [a.arg for a in f.args.args]
+    def call_function(self, f, args, bound=False):
+        """follow a call into a module-level helper (or, bound, into a method of the same object): its body is evaluated on the argument values"""
+        params = [a.arg for a in f.args.args][1 if bound else 0:]
         if len(args) > len(params) or f.args.vararg or f.args.kwarg:
             return UNKNOWN
-        env = {k: v for k, v in self.env.items() if k in self.module_names}
+        env = {k: v for k, v in self.env.items() if k in self.module_names or (bound and isinstance(k, str) and k.startswith('self.'))}
         defaults = f.args.defaults
         for i, pn in enumerate(params):
             if i < len(args):
@@ -381,6 +485,7 @@ class StrExec:
         sub = StrExec(env, tracked=assigned_names(f.body), hole_for_subscript=self.hole_for_subscript, call_hook=self.call_hook,
                       functions=self.functions, is_sub=True)
         sub.module_names = self.module_names
+        sub.methods = self.methods
         sub.local_names = assigned_names(f.body) - set(env)
         sub.depth = self.depth + 1
         if sub.depth > 4:
@@ -402,6 +507,10 @@ class StrExec:
                 if t.id not in self.frozen:
                     self.env[t.id] = v
                     self.defs[t.id] = src(s.value)
+            return
+        if isinstance(s, ast.Assign) and len(s.targets) == 1 and isinstance(s.targets[0], ast.Attribute) and isinstance(s.targets[0].value, ast.Name) \
+                and s.targets[0].value.id == 'self':
+            self.env['self.' + s.targets[0].attr] = self.ev(s.value)     # a field of the object under construction
             return
         if isinstance(s, ast.Assign) and len(s.targets) == 1 and isinstance(s.targets[0], ast.Name):
             if s.targets[0].id in self.frozen:
@@ -501,6 +610,9 @@ class StrExec:
                 return
             if c.func.attr == 'extend' and isinstance(base, list) and len(c.args) == 1 and isinstance(self.ev(c.args[0]), list):
                 base.extend(self.ev(c.args[0]))
+                return
+            if c.func.attr == 'update' and isinstance(base, dict) and len(c.args) == 1 and not c.keywords and isinstance(self.ev(c.args[0]), dict):
+                base.update(self.ev(c.args[0]))
                 return
             if nm in self.tracked:
                 raise AnalysisError('cannot evaluate `%s` (line %s)' % (src(s), s.lineno))
